@@ -87,6 +87,12 @@ class SNRAnalyzer(BaseAnalyzer):
         self.adaptive = adaptive
         self.low_bias = low_bias
 
+    def set_input(self, input):
+        """Set the input of the analyzer and split it into signal and noise
+        again"""
+        BaseAnalyzer.set_input(self, input)
+        self.signal, self.noise = signal_noise(input)
+
     @desc.setattr_on_read
     def mt_frequencies(self):
         return (np.fft.rfftfreq(self.input.data.shape[-1]) *
